@@ -10,6 +10,61 @@ NOT_DECIDED = ["BufRead::lines, HashMap, str::trim and split_whitespace semantic
 CONFIG_SENSITIVE = True
 
 
+def kv_pipeline(ctx, key, paths, body):
+    """[(present, key term, value term)] per line (ELEM) when visit_str builds its map as lines().filter_map(..)[.map(..)].collect(); else None"""
+    rets = [p for p in ret_paths(paths) if unwrap_ok(p.end[1]) is not None]
+    if not rets:
+        return None
+    t = strip_refs(unwrap_ok(rets[0].end[1]))
+    if not (is_call(t, "::collect") and call_args(t)):
+        return None
+    t = strip_refs(call_args(t)[0])
+    stages = []
+    for _ in range(4):
+        if is_call(t, "Iterator>::map", "::map", "::filter_map") and len(call_args(t)) == 2:
+            stages.append((mir.norm_path(t[1]).rsplit("::", 1)[-1], call_args(t)[1]))
+            t = strip_refs(call_args(t)[0])
+        else:
+            break
+    if not (is_call(t, "str>::lines") and stages):
+        return None
+    pe = mir.PathEval(ctx.fx, body, inline=ctx.inline_set, desugar=True)
+    cur = [(True, ELEM)]
+    for kind, fn in reversed(stages):
+        nxt = []
+        for present, term in cur:
+            if not present:
+                nxt.append((False, None))
+                continue
+            for (_, facts, v) in pe._apply(strip_refs(fn) if isinstance(fn, tuple) and fn and fn[0] in ("ref",) else fn, (term,), 0):
+                if v is None:
+                    return None
+                if kind == "map":
+                    nxt.append((True, v))
+                    continue
+                sm = unwrap_some(v)
+                if sm is not None:
+                    nxt.append((True, sm))
+                elif is_none(v):
+                    nxt.append((False, None))
+                else:
+                    # an opaque Option (e.g. line.split_once('=')): kept with its payload when Some, dropped when None
+                    nxt.append((True, ("field", ("downcast", v, "Some"), 0, "")))
+                    nxt.append((False, None))
+        cur = nxt
+    out = []
+    for present, term in cur:
+        if not present:
+            out.append((False, None, None))
+            continue
+        tt = strip_refs(term)
+        a = tt[4] if isinstance(tt, tuple) and tt and tt[0] == "agg" and tt[1] == "tuple" and len(tt[4]) == 2 else None
+        if a is None:
+            return None
+        out.append((True, a[0], a[1]))
+    return out
+
+
 def only_maps(r):
     """collect(map(..map(split_whitespace(x), f).., g)): nothing but element-wise maps sits between the splitter and the collection
     (a whitelist: any other adaptor drops, reorders or merges items)"""
@@ -238,6 +293,25 @@ def run(ctx):
                 ctx.check(lines, "D4-LINES", VK, "per-line", "one KEY=VALUE per line of the record", "pairs are not taken per line of the record text", body.span_of(ins[0].bb), nontrivial=False)
             else:
                 skip_seen = skip_seen or (bool(so) and (so[0].fact == ("eq", 0) or (so[0].fact[0] == "ne" and 1 in so[0].fact[1])))
+        if not backs:
+            # the same map written as an iterator pipeline: value.lines().filter_map(split at '=').map(trim both).collect()
+            pl = kv_pipeline(ctx, VK, paths, body)
+            if pl is not None:
+                for (present, k, v) in pl:
+                    if not present:
+                        skip_seen = True
+                        continue
+                    ins_seen = True
+                    tk = [x for x in subterms(k) if is_call(x, "str>::trim")]
+                    tv = [x for x in subterms(v) if is_call(x, "str>::trim")]
+                    ctx.check(bool(tk) and bool(tv), "D4-TRIM", VK, "trimmed", "both sides trimmed", "key or value is stored untrimmed", fn_span(body), nontrivial=False)
+                    rk = substr_role(substr(call_args(tk[0])[0])) if tk else ("none", None, None)
+                    rv = substr_role(substr(call_args(tv[0])[0])) if tv else ("none", None, None)
+                    sk_, sv_ = (substr(call_args(tk[0])[0]) if tk else None), (substr(call_args(tv[0])[0]) if tv else None)
+                    ok = rk == ("prefix", "find", "=") and rv == ("suffix", "find", "=") and sk_[0] == ELEM and sv_[0] == ELEM
+                    ctx.check(ok, "D4-FIRSTSEP", VK, "split", "key/value = before/after the FIRST '=' of the line",
+                              "KEY=VALUE is cut as %s / %s of the line: a value must be everything after the first '='" % (rk, rv), fn_span(body))
+                    ctx.ok("D4-LINES", VK, "per-line", "one KEY=VALUE per line of the record (lines() pipeline)", fn_span(body), nontrivial=False)
         ctx.check(ins_seen and skip_seen, "D4-KEYVALUE", VK, "arms", "insert on '=', skip otherwise", "visit_str lacks the insert arm or the skip arm for lines without '='", fn_span(body))
         oks = [p for p in ret_paths(paths) if unwrap_ok(p.end[1]) is not None]
         ctx.check(bool(oks) and len(ret_paths(paths)) == len(oks), "D4-KEYVALUE", VK, "always-ok", "always returns the map", "visit_str can fail on a well-formed string", fn_span(body), nontrivial=False)
